@@ -75,6 +75,10 @@ var c20Templates = []string{
 	"{% for i in (1..40) %}{% cnttag %}{{ i }}{% endfor %}",
 	"{% tablerow i in (1..40) cols: 3 %}{{ i | cnt }}{% endtablerow %}",
 	"{% for i in (1..8) %}{% for j in (1..5) %}{{ j | cnt }}{% endfor %}{% capture c %}{{ i | cnt }}{% endcapture %}{{ c }}{% endfor %}",
+	// an application block that hands on what its body returned - text together with the break / continue that ended it
+	"{% for i in l %}a{% myblock %}b{{ i }}{% break %}{% endmyblock %}c{% endfor %}d",
+	"{% for i in l %}{% myblock %}x{{ i }}{% continue %}y{% endmyblock %}z{% endfor %}w",
+	"{% for i in l %}{% myblock %}{% if i == 2 %}{% break %}{% endif %}{{ i }}{% endmyblock %}{% endfor %}{% mytag %}",
 }
 
 // c20Skeletons: every subset of hyphen positions of a few block skeletons (the trim writer holds
@@ -359,7 +363,7 @@ func init() {
 	explore.Register(&explore.Prop{
 		ID:    "C20",
 		Level: "fault_enumeration",
-		Rule: "every subset of hyphen positions of 6 block skeletons (if, for, raw inside if, capture, unless/else, tablerow: ~1000 templates) and 49 templates (three printing arrays of arrays; four that count the filter/tag executions after the failing write; eight with loops whose iterations end by break or continue; four of them with 100..600 writes or a 70 KB write) covering every tag (incl. tablerow, include, capture, nested loops, cycle, registered tag and block), trim-marker placements, empty output and long text; a fault-free render records the W Write calls and their sizes; then for EVERY k in 0..W-1 the writer fails on call k accepting 0 bytes, a strict prefix or all bytes of the call (all prefix lengths for calls <=8 bytes (quick) / <=64 (thorough), else 1, len/2, len-1), failing once or forever, through FRender and ParseAndFRender, returning a sentinel error - and, for the hand-written templates, io.ErrShortWrite, io.EOF, io.ErrClosedPipe and a wrapping error as well; plus short writes with a nil error (totality only); " +
+		Rule: "every subset of hyphen positions of 6 block skeletons (if, for, raw inside if, capture, unless/else, tablerow: ~1000 templates) and 52 templates (three printing arrays of arrays; four that count the filter/tag executions after the failing write; eight with loops whose iterations end by break or continue; four of them with 100..600 writes or a 70 KB write) covering every tag (incl. tablerow, include, capture, nested loops, cycle, registered tag and block), trim-marker placements, empty output and long text; a fault-free render records the W Write calls and their sizes; then for EVERY k in 0..W-1 the writer fails on call k accepting 0 bytes, a strict prefix or all bytes of the call (all prefix lengths for calls <=8 bytes (quick) / <=64 (thorough), else 1, len/2, len-1), failing once or forever, through FRender and ParseAndFRender, returning a sentinel error - and, for the hand-written templates, io.ErrShortWrite, io.EOF, io.ErrClosedPipe and a wrapping error as well; plus short writes with a nil error (totality only); " +
 			"class = (template, fault kind, partial accept); distinct_nontrivial counts distinct classes",
 		Assumptions: []string{"a writer that returns n < len(p) with a nil error violates io.Writer; only absence of a panic is required there"},
 		Setup:       func(tier string) { c20.eng = c20Engine(); c20Build(tier) },
